@@ -61,6 +61,11 @@ type Scenario struct {
 	Cap    int                `json:"cap"`
 	CbFail int                `json:"cbfail"`
 	Decs   []fakereg.Decision `json:"decs"`
+	// Repository.Referrers around the two paths (op "wrap"; Kind R)
+	State    string `json:"state"`    // capability before the call: "U" unknown, "S" supported ("" too), "N" unsupported
+	NoAPI    bool   `json:"noapi"`    // the registry has no referrers API (404)
+	Index    bool   `json:"index"`    // the registry holds the referrers index under the referrers tag
+	CbUnsupp bool   `json:"cbunsupp"` // the callback's error wraps errdef.ErrUnsupported
 }
 
 // ---------- token encoders shared with ml/c15_main.ml ----------
@@ -167,7 +172,11 @@ func classify(err error) string {
 		return "ErrDecode"
 	case errors.Is(err, errdef.ErrUnsupported) && strings.Contains(err.Error(), "unknown content returned"):
 		return "ErrCType"
-	case errors.As(err, &er), errors.Is(err, errdef.ErrUnsupported):
+	case errors.Is(err, errdef.ErrSizeExceedsLimit):
+		return "ErrSize"
+	case errors.Is(err, errdef.ErrUnsupported):
+		return "ErrUnsupported"
+	case errors.As(err, &er):
 		return "ErrStatus"
 	case errors.As(err, &ue):
 		return "ErrResolve"
@@ -192,14 +201,37 @@ func basePath(sc *Scenario) string {
 	return "/v2/" + sc.Repo + "/referrers/" + subject.String()
 }
 
+func indexDoc(items []fakereg.Item, size int) []byte {
+	ms := make([]ocispec.Descriptor, len(items))
+	for i, it := range items {
+		ms[i] = ocispec.Descriptor{MediaType: ocispec.MediaTypeImageManifest, Digest: digest.Digest(it.Name), Size: 2, ArtifactType: it.ArtifactType}
+	}
+	idx := ocispec.Index{MediaType: ocispec.MediaTypeImageIndex, Manifests: ms}
+	idx.SchemaVersion = 2
+	doc, _ := json.Marshal(idx)
+	if size > len(doc) {
+		doc = append(append(doc[:len(doc)-1:len(doc)-1], bytes.Repeat([]byte{' '}, size-len(doc))...), '}')
+	}
+	return doc
+}
+
+var finalState int // capability state after the last execute of a referrers scenario
+
 func execute(sc *Scenario) (reg *fakereg.Registry, pages [][]fakereg.Item, logAtFail int, err error) {
 	reg = fakereg.New(host)
+	reg.NoReferrersAPI = sc.NoAPI
+	if sc.Index {
+		reg.Manifests[sc.Repo+"@"+subject.Algorithm().String()+"-"+subject.Encoded()] = fakereg.Manifest{MediaType: ocispec.MediaTypeImageIndex, Content: indexDoc(sc.Items, 0)}
+	}
 	reg.Cap = sc.Cap
 	if reg.Cap < 1 {
 		reg.Cap = 1
 	}
 	reg.MaxRequests = len(sc.Items) + 8
 	reg.Decide = func(x *fakereg.Exchange) fakereg.Decision {
+		if x.Kind == 'M' { // the manifest endpoint (tag schema) is not disturbed here
+			return fakereg.Decision{}
+		}
 		i := len(reg.Log) - 1
 		if i < len(sc.Decs) {
 			return sc.Decs[i]
@@ -213,6 +245,9 @@ func execute(sc *Scenario) (reg *fakereg.Registry, pages [][]fakereg.Item, logAt
 		calls++
 		if sc.CbFail >= 0 && calls-1 == sc.CbFail {
 			logAtFail = len(reg.Log)
+			if sc.CbUnsupp {
+				return fmt.Errorf("callback: %w: %w", errInjected, errdef.ErrUnsupported)
+			}
 			return errInjected
 		}
 		return nil
@@ -237,7 +272,13 @@ func execute(sc *Scenario) (reg *fakereg.Registry, pages [][]fakereg.Item, logAt
 		reg.Referrers[sc.Repo+"@"+subject.String()] = sc.Items
 		r := &remote.Repository{Reference: registry.Reference{Registry: host, Repository: sc.Repo}, PlainHTTP: true,
 			Client: reg.Client(), ReferrerListPageSize: sc.N, MaxMetadataBytes: sc.Limit}
-		r.SetReferrersCapability(true)
+		switch sc.State {
+		case "U":
+		case "N":
+			r.SetReferrersCapability(false)
+		default:
+			r.SetReferrersCapability(true)
+		}
 		desc := ocispec.Descriptor{MediaType: ocispec.MediaTypeImageManifest, Digest: subject, Size: 7}
 		err = r.Referrers(ctx, desc, sc.AT, func(ds []ocispec.Descriptor) error {
 			p := make([]fakereg.Item, len(ds))
@@ -246,6 +287,7 @@ func execute(sc *Scenario) (reg *fakereg.Registry, pages [][]fakereg.Item, logAt
 			}
 			return onPage(p)
 		})
+		finalState = remote.VerifReferrersState(r)
 	default:
 		panic("kind " + sc.Kind)
 	}
@@ -283,35 +325,67 @@ func showNames(its []fakereg.Item) string {
 	return "[" + strings.Join(p, " ") + "]"
 }
 
+// clientTokens renders the exchanges of one listing: the requests as observed and the
+// responses as input of the client model (13 tokens each, see ml/c15_main.ml).
+func clientTokens(log []*fakereg.Exchange) (reqs, resp []string) {
+	for _, x := range log {
+		reqs = append(reqs, common.Hex(x.Path)+"?"+obsQuery(valuesKVs(x.Query)))
+		nu, js := "0", "0"
+		if x.Status == 404 && x.Dec.ErrorCode == "NAME_UNKNOWN" {
+			nu = "1"
+		}
+		if x.JSONOK {
+			js = "1"
+		}
+		tt, tp, tq := "!", "_", "_"
+		switch {
+		case x.HasLink && x.Dec.PreFirst != 0: // the first link-value is the rel="first" link
+			tt, tp, tq = common.Hex(x.PreText), common.Hex(x.TPath), kvsTok(x.PreQuery)
+		case x.HasLink:
+			tt, tp, tq = common.Hex(x.Text), common.Hex(x.TPath), kvsTok(x.TQuery)
+		default:
+			if t, ok := rawTarget(x.Link); ok {
+				tt, tp = common.Hex(t), "!"
+			}
+		}
+		links := "_"
+		if len(x.Links) > 0 {
+			hs := make([]string, len(x.Links))
+			for i, l := range x.Links {
+				hs[i] = common.Hex(l)
+			}
+			links = strings.Join(hs, ",")
+		}
+		resp = append(resp, fmt.Sprintf("%d %s %s %s %d %d %s %s %s %s %s %s %s", x.Status, nu, common.Hex(x.CType), js, x.DocLen, x.TotalLen,
+			itemsTok(x.Page), links, common.Hex(x.FHdr), common.Hex(x.FAnn), tt, tp, tq))
+	}
+	return
+}
+
+func relFirst(log []*fakereg.Exchange) bool {
+	for _, x := range log {
+		if x.HasLink && x.Dec.PreFirst != 0 {
+			return true
+		}
+	}
+	return false
+}
+
 func listCase(sc *Scenario) {
 	sc.Op = "list"
 	id := run.NewID()
 	reg, pages, logAtFail, err := execute(sc)
 	outcome := classify(err)
-	fail := func(sig, msg string) { run.OracleFail(id, sig, sc.Kind+" "+msg, sc) }
+	fail := func(sig, msg string) {
+		if relFirst(reg.Log) {
+			// known finding: parseLink takes the first link-value whatever its relation type
+			sig, msg = "link-rel-ignored", "a rel=\"first\" link-value precedes the next link: "+msg
+		}
+		run.OracleFail(id, sig, sc.Kind+" "+msg, sc)
+	}
 
 	// ----- model input and implementation observable -----
-	var reqs []string
-	var resp []string
-	for _, x := range reg.Log {
-		reqs = append(reqs, common.Hex(x.Path)+"?"+obsQuery(valuesKVs(x.Query)))
-		ct := "1"
-		if x.Kind == 'R' && x.Dec.CType != "" && x.Dec.CType != ocispec.MediaTypeImageIndex {
-			ct = "0"
-		}
-		js := "0"
-		if x.JSONOK {
-			js = "1"
-		}
-		tt, tp, tq := "!", "_", "_"
-		if x.HasLink {
-			tt, tp, tq = common.Hex(x.Text), common.Hex(x.TPath), kvsTok(x.TQuery)
-		} else if t, ok := rawTarget(x.Link); ok {
-			tt, tp = common.Hex(t), "!"
-		}
-		resp = append(resp, fmt.Sprintf("%d %s %s %d %d %s %s %s %s %s %s %s", x.Status, ct, js, x.DocLen, x.TotalLen,
-			itemsTok(x.Page), common.Hex(x.Link), common.Hex(x.FHdr), common.Hex(x.FAnn), tt, tp, tq))
-	}
+	reqs, resp := clientTokens(reg.Log)
 	var q0 []fakereg.KV
 	if sc.Kind == "R" && sc.AT != "" {
 		q0 = []fakereg.KV{{K: "artifactType", V: sc.AT}}
@@ -349,7 +423,7 @@ func listCase(sc *Scenario) {
 	disturbed := -1 // index of the first exchange that cannot be completed normally
 	oversize := -1
 	for i, x := range reg.Log {
-		bad := x.Status != 200 || !x.JSONOK || x.Dec.RawLink != nil || (x.Kind == 'R' && x.Dec.CType != "" && x.Dec.CType != ocispec.MediaTypeImageIndex)
+		bad := x.Status != 200 || !x.JSONOK || x.Dec.RawLink != nil || (x.Kind == 'R' && x.CType != ocispec.MediaTypeImageIndex)
 		if x.Status == 200 && int64(x.DocLen) > effLimit(sc.Limit) {
 			bad = true
 			if oversize < 0 {
@@ -474,20 +548,110 @@ func listCase(sc *Scenario) {
 		if i > 2 && !run.Rand.Chance(1, 3) {
 			continue
 		}
-		sid := run.NewID()
-		d := x.Dec
-		flt := "0"
-		if d.Filter {
-			flt = "1"
+		regPageCase(sc.Kind, sc.Items, reg.Cap, x)
+	}
+}
+
+// RegPage is the replay form of one registry-model case (one request to the fake registry).
+type RegPage struct {
+	Op    string           `json:"op"` // "regpage"
+	Kind  string           `json:"kind"`
+	Items []fakereg.Item   `json:"items"`
+	Cap   int              `json:"cap"`
+	Path  string           `json:"path"`
+	Query []fakereg.KV     `json:"query"`
+	Dec   fakereg.Decision `json:"dec"`
+}
+
+// regPageCase compares one answer of the fake registry with the registry model (S line) and
+// judges it against the conditions of a legal registry, independently of the model.
+func regPageCase(kind string, items []fakereg.Item, cap int, x *fakereg.Exchange) {
+	sid := run.NewID()
+	d := x.Dec
+	flt := "0"
+	if d.Filter {
+		flt = "1"
+	}
+	in := fmt.Sprintf("S %s %s %d %s %s %d %s %s %s %s", kind, itemsTok(items), cap, common.Hex(x.Path), kvsTok(valuesKVs(x.Query)),
+		d.M, kvsTok(d.Extra), flt, common.Hex(d.FHdr), common.Hex(d.FAnn))
+	more, lq := 0, "_"
+	if x.More {
+		more, lq = 1, obsQuery(canonKVs(x.TQuery))
+	}
+	run.Case(sid, in, fmt.Sprintf("%s %d %s", itemsTok(x.Page), more, lq))
+	run.Count("registry_page")
+
+	// legality of the answer (ground truth: the item list and the request)
+	rep := RegPage{Op: "regpage", Kind: kind, Items: items, Cap: cap, Path: x.Path, Query: valuesKVs(x.Query), Dec: fakereg.Decision{M: d.M, Extra: d.Extra, Filter: d.Filter, FHdr: d.FHdr, FAnn: d.FAnn}}
+	bad := func(msg string) {
+		run.OracleFail(sid, "fake-registry-illegal", fmt.Sprintf("fake registry, request %s?%s: %s", x.Path, x.Query.Encode(), msg), rep)
+	}
+	rest := fakereg.After(items, x.Query.Get("last"))
+	lim := cap
+	if n, err := strconv.Atoi(x.Query.Get("n")); err == nil && n > 0 && n < lim {
+		lim = n
+	}
+	u := x.Unfilt
+	switch {
+	case len(u) > len(rest) || !sameItems(u, rest[:len(u)]):
+		bad(fmt.Sprintf("page %s is not a prefix of the remaining items %s", showNames(u), showNames(rest)))
+	case len(u) > lim:
+		bad(fmt.Sprintf("page of %d items exceeds min(cap, n) = %d", len(u), lim))
+	case len(u) == 0 && len(rest) > 0:
+		bad("empty page although items remain")
+	case x.More != (len(u) < len(rest)):
+		bad(fmt.Sprintf("link present = %v, items remaining = %d", x.More, len(rest)-len(u)))
+	}
+	if x.More {
+		last := ""
+		for _, kv := range x.TQuery {
+			if kv.K == "last" && last == "" {
+				last = kv.V
+			}
 		}
-		in := fmt.Sprintf("S %s %s %d %s %s %d %s %s %s %s", sc.Kind, itemsTok(sc.Items), reg.Cap, common.Hex(x.Path), kvsTok(valuesKVs(x.Query)),
-			d.M, kvsTok(d.Extra), flt, common.Hex(d.FHdr), common.Hex(d.FAnn))
-		more, lq := 0, "_"
-		if x.More {
-			more, lq = 1, obsQuery(canonKVs(x.TQuery))
+		if len(u) == 0 || last != u[len(u)-1].Name {
+			bad(fmt.Sprintf("link cursor %q is not the last item of the page %s", last, showNames(u)))
 		}
-		run.Case(sid, in, fmt.Sprintf("%s %d %s", itemsTok(x.Page), more, lq))
-		run.Count("registry_page")
+	}
+	at := x.Query.Get("artifactType")
+	for _, it := range x.Page {
+		if kind == "R" && at != "" && (d.Filter || fakereg.FilterApplied(d.FHdr, "artifactType") || fakereg.FilterApplied(d.FAnn, "artifactType")) && it.ArtifactType != at {
+			bad("filtering announced or chosen, page holds " + showNames(x.Page))
+		}
+	}
+}
+
+func regPageReplay(rp *RegPage) {
+	reg := fakereg.New(host)
+	reg.Cap = rp.Cap
+	if reg.Cap < 1 {
+		reg.Cap = 1
+	}
+	reg.Decide = func(*fakereg.Exchange) fakereg.Decision { return rp.Dec }
+	switch rp.Kind {
+	case "K":
+		reg.Repos = rp.Items
+	case "T":
+		reg.Tags[strings.TrimSuffix(strings.TrimPrefix(rp.Path, "/v2/"), "/tags/list")] = rp.Items
+	default:
+		i := strings.LastIndex(rp.Path, "/referrers/")
+		if i < 0 {
+			return
+		}
+		reg.Referrers[rp.Path[len("/v2/"):i]+"@"+rp.Path[i+len("/referrers/"):]] = rp.Items
+	}
+	q := url.Values{}
+	for _, kv := range rp.Query {
+		q.Add(kv.K, kv.V)
+	}
+	u := url.URL{Scheme: "http", Host: host, Path: rp.Path, RawQuery: q.Encode()}
+	resp, err := reg.Client().Get(u.String())
+	if err != nil || len(reg.Log) != 1 {
+		panic(fmt.Sprintf("regpage replay: %v", err))
+	}
+	resp.Body.Close()
+	if reg.Log[0].Status == 200 {
+		regPageCase(rp.Kind, rp.Items, reg.Cap, reg.Log[0])
 	}
 }
 
@@ -609,6 +773,13 @@ func genDecision(r *common.Rand, sc *Scenario) fakereg.Decision {
 	if r.Chance(1, 4) {
 		d.Pad = 1 + r.Intn(4)
 	}
+	// further link-values and Link lines after the next link (RFC 8288)
+	if r.Chance(1, 6) {
+		d.PostSame = []string{common.Pick(r, []string{`<http://reg.test/v2/>; rel="first"`, `</other>; rel="prev"`, `<x>`})}
+	}
+	if r.Chance(1, 6) {
+		d.PostLines = []string{common.Pick(r, []string{`<http://reg.test/v2/>; rel="first"`, `</v2/repo/tags/list?last=zzz>; rel="last"`, `<>; rel="self"`})}
+	}
 	return d
 }
 
@@ -662,12 +833,17 @@ func genScenario(r *common.Rand, maxItems int) *Scenario {
 			b := common.Pick(r, []string{`{"tags":[`, `[1,2]`, `{"tags":"x","repositories":7,"manifests":{}}`, ``, `nul`})
 			sc.Decs[j].RawBody = &b
 		case 2:
-			sc.Decs[j].CType = common.Pick(r, []string{"application/json", "text/plain"})
+			sc.Decs[j].CType = common.Pick(r, ctypeVariants)
 		case 3:
 			sc.Limit = int64(1 + r.Intn(40))
 		}
 	case 4:
 		sc.Limit = -1
+	case 5: // a rel="first" link-value before the next link (known finding link-rel-ignored)
+		if r.Chance(1, 4) {
+			j := r.Intn(min(len(sc.Decs), 2))
+			sc.Decs[j].PreFirst = 1 + r.Intn(2)
+		}
 	}
 	return sc
 }
@@ -865,6 +1041,218 @@ func sizeCase(limit, size int64) {
 	run.Count("limit_size_" + o)
 	if (size > effLimit(limit)) != (err != nil) || (err != nil && !errors.Is(err, errdef.ErrSizeExceedsLimit)) {
 		run.OracleFail(id, "limit-size", fmt.Sprintf("limitSize(size %d, limit %d) = %v", size, limit, err), map[string]any{"op": "size", "limit": limit, "size": size})
+	}
+}
+
+// ---------- Repository.Referrers: capability detection around the two paths ----------
+
+func wrapCase(sc *Scenario) {
+	sc.Op, sc.Kind = "wrap", "R"
+	if sc.State == "" {
+		sc.State = "S"
+	}
+	id := run.NewID()
+	reg, pages, _, err := execute(sc)
+	outcome := classify(err)
+	state := []string{"U", "S", "N"}[finalState]
+	var api []*fakereg.Exchange
+	fell := 0
+	for _, x := range reg.Log {
+		if x.Kind == 'R' {
+			api = append(api, x)
+		} else if x.Kind == 'M' {
+			fell = 1
+		}
+	}
+	reqs, resp := clientTokens(api)
+	var q0 []fakereg.KV
+	if sc.AT != "" {
+		q0 = []fakereg.KV{{K: "artifactType", V: sc.AT}}
+	}
+	pt := make([]string, len(pages))
+	for i, p := range pages {
+		pt[i] = itemsTok(p)
+	}
+	ps, rs := "_", "_"
+	if len(pt) > 0 {
+		ps = strings.Join(pt, ";")
+	}
+	if len(reqs) > 0 {
+		rs = strings.Join(reqs, "|")
+	}
+	b01 := func(b bool) string {
+		if b {
+			return "1"
+		}
+		return "0"
+	}
+	model := fmt.Sprintf("W %s %s %s %d %s R %d %d %s - %d %s %s %d %s", sc.State, b01(sc.CbUnsupp), b01(sc.Index), len(indexDoc(sc.Items, 0)), itemsTok(sc.Items),
+		sc.N, sc.Limit, common.Hex(sc.AT), sc.CbFail, common.Hex(basePath(sc)), kvsTok(q0), len(resp), strings.Join(resp, " "))
+	scjs, _ := json.Marshal(sc)
+	run.Case(id, strings.TrimRight(model, " ")+" J"+common.Hex(string(scjs)),
+		fmt.Sprintf("R %s P %d %s O %s F %d S %s", rs, len(pages), ps, outcome, fell, state))
+	run.Count("wrap_" + sc.State + "_" + outcome + "_" + state)
+	run.Nontrivial(model)
+
+	// ----- oracle (ground truth only) -----
+	fail := func(sig, msg string) { run.OracleFail(id, sig, "Referrers(state "+sc.State+") "+msg, sc) }
+	got := flat(pages)
+	seen := map[string]bool{}
+	for _, it := range got {
+		if seen[it.Name] {
+			fail("exactly-once", fmt.Sprintf("referrer %s delivered twice: %s", it.Name, showNames(got)))
+			break
+		}
+		seen[it.Name] = true
+	}
+	for i, p := range pages {
+		if len(p) == 0 {
+			fail("empty-page", fmt.Sprintf("callback %d received an empty page", i))
+		}
+	}
+	if sc.CbFail >= 0 && len(pages) > sc.CbFail {
+		if !errors.Is(err, errInjected) {
+			fail("callback-error-lost", fmt.Sprintf("callback %d failed (unsupported-class error: %v), Referrers returned %v", sc.CbFail, sc.CbUnsupp, err))
+		}
+		if len(pages) != sc.CbFail+1 {
+			fail("continues-after-error", fmt.Sprintf("callback %d failed, %d callbacks were made", sc.CbFail, len(pages)))
+		}
+	}
+	if sc.State != "U" && state != sc.State {
+		fail("state-changed", fmt.Sprintf("capability was %s, is %s afterwards", sc.State, state))
+	}
+	// an error answer that does not mean "no referrers API" is returned, not worked around
+	if sc.State == "U" && !sc.NoAPI && len(api) > 0 {
+		x := api[0]
+		if x.Status == 500 || x.Status == 403 || (x.Status == 404 && x.Dec.ErrorCode == "NAME_UNKNOWN") {
+			if err == nil || fell != 0 || state != "U" {
+				fail("fallback-on-error", fmt.Sprintf("the referrers API answered %d %s; Referrers returned %v, tag schema used: %v, capability %s", x.Status, x.Dec.ErrorCode, err, fell != 0, state))
+			}
+		}
+	}
+	// undisturbed runs of legal registries
+	clean := sc.CbFail < 0
+	for _, x := range api {
+		if !sc.NoAPI && (x.Status != 200 || !x.JSONOK || x.Dec.RawLink != nil || x.CType != ocispec.MediaTypeImageIndex || int64(x.DocLen) > effLimit(sc.Limit)) {
+			clean = false
+		}
+	}
+	if int64(len(indexDoc(sc.Items, 0))) > effLimit(sc.Limit) {
+		clean = false
+	}
+	var expected []fakereg.Item
+	for _, it := range sc.Items {
+		if sc.AT == "" || it.ArtifactType == sc.AT {
+			expected = append(expected, it)
+		}
+	}
+	switch {
+	case !clean:
+	case !sc.NoAPI && sc.State != "N":
+		if err != nil || !sameItems(got, expected) {
+			fail("exactly-once", fmt.Sprintf("registry with referrers API: delivered %s, %v; it holds %s", showNames(got), err, showNames(expected)))
+		} else if state != "S" {
+			fail("state-not-set", "successful API listing left the capability "+state)
+		}
+	case sc.NoAPI && sc.Index && sc.State != "S":
+		if err != nil || !sameItems(got, expected) {
+			fail("exactly-once", fmt.Sprintf("registry without referrers API: delivered %s, %v; its index holds %s", showNames(got), err, showNames(expected)))
+		} else if state != "N" {
+			fail("state-not-set", "fallback to the tag schema left the capability "+state)
+		}
+	}
+}
+
+func genWrap(r *common.Rand) {
+	sc := &Scenario{Kind: "R", Repo: "repo", CbFail: -1, Cap: 1000, State: common.Pick(r, []string{"U", "U", "U", "S", "N"})}
+	sc.Items = genItems(r, "R", r.Intn(7))
+	if r.Chance(1, 2) {
+		sc.AT = common.Pick(r, artifactTypes[:3])
+	}
+	if r.Chance(1, 3) {
+		sc.N = 1 + r.Intn(3)
+	}
+	sc.NoAPI = r.Chance(1, 3)
+	sc.Index = sc.NoAPI || r.Chance(1, 3)
+	if sc.NoAPI && r.Chance(1, 6) {
+		sc.Index = false
+	}
+	for i := 0; i < len(sc.Items)+2; i++ {
+		sc.Decs = append(sc.Decs, genDecision(r, sc))
+	}
+	switch r.Intn(8) {
+	case 0, 1:
+		sc.CbFail = r.Intn(2)
+		sc.CbUnsupp = r.Bool()
+	case 2: // the API answers "unsupported" at request j (possibly after delivered pages)
+		j := r.Intn(min(len(sc.Decs), 3))
+		if r.Bool() {
+			sc.Decs[j].Status, sc.Decs[j].ErrorCode = 404, common.Pick(r, []string{"NOT_FOUND", "NAME_UNKNOWN", "UNSUPPORTED"})
+		} else {
+			sc.Decs[j].CType = common.Pick(r, ctypeVariants)
+		}
+	case 3:
+		j := r.Intn(min(len(sc.Decs), 3))
+		sc.Decs[j].Status = common.Pick(r, []int{500, 403})
+	case 4:
+		sc.Limit = int64(100 + r.Intn(600))
+	}
+	wrapCase(sc)
+}
+
+var ctypeVariants = []string{"application/json", "text/plain", "application/vnd.oci.image.index.v1+json; charset=utf-8",
+	"application/vnd.oci.image.index.v1+json;charset=utf-8", "Application/vnd.oci.image.index.v1+json", "application/vnd.oci.image.manifest.v1+json"}
+
+// pingCase: pingReferrers against one answer of the referrers endpoint.
+func pingCase(state string, status int, code, ctype string) {
+	id := run.NewID()
+	reg := fakereg.New(host)
+	reg.Decide = func(*fakereg.Exchange) fakereg.Decision {
+		return fakereg.Decision{Status: status, ErrorCode: code, CType: ctype}
+	}
+	r := &remote.Repository{Reference: registry.Reference{Registry: host, Repository: "repo"}, PlainHTTP: true, Client: reg.Client()}
+	switch state {
+	case "S":
+		r.SetReferrersCapability(true)
+	case "N":
+		r.SetReferrersCapability(false)
+	}
+	ok, err := remote.VerifPingReferrers(context.Background(), r)
+	after := []string{"U", "S", "N"}[remote.VerifReferrersState(r)]
+	res := "0"
+	if err != nil {
+		res = "E"
+	} else if ok {
+		res = "1"
+	}
+	sent := ocispec.MediaTypeImageIndex
+	if ctype != "" {
+		sent = ctype
+	}
+	nu := "0"
+	if status == 404 && code == "NAME_UNKNOWN" {
+		nu = "1"
+	}
+	st := status
+	if st == 0 {
+		st = 200
+	}
+	run.Case(id, fmt.Sprintf("P %s %d %s %s", state, st, nu, common.Hex(sent)), fmt.Sprintf("%s %s %d", res, after, len(reg.Log)))
+	run.Count("ping_" + state + "_" + res)
+	run.Nontrivial(fmt.Sprintf("P%s/%d/%s/%s", state, status, code, ctype))
+	rep := map[string]any{"op": "ping", "state": state, "status": status, "code": code, "ctype": ctype}
+	// oracle: a known capability is never changed nor re-asked; a plain index answer means supported
+	if state != "U" && (after != state || len(reg.Log) != 0 || err != nil || ok != (state == "S")) {
+		run.OracleFail(id, "state-changed", fmt.Sprintf("ping with capability %s: answer %v, %v, %d requests, capability %s afterwards", state, ok, err, len(reg.Log), after), rep)
+	}
+	if state == "U" && st == 200 && ctype == "" && (!ok || err != nil || after != "S") {
+		run.OracleFail(id, "state-not-set", fmt.Sprintf("ping of a registry with referrers API: %v, %v, capability %s", ok, err, after), rep)
+	}
+	if state == "U" && st == 200 && (ctype == "application/json" || ctype == "text/plain" || ctype == ocispec.MediaTypeImageManifest) && (ok || err != nil || after != "N") {
+		run.OracleFail(id, "ping-wrong-content-type", fmt.Sprintf("ping answered by a %s document: %v, %v, capability %s", ctype, ok, err, after), rep)
+	}
+	if state == "U" && st == 404 && code != "NAME_UNKNOWN" && (ok || err != nil || after != "N") {
+		run.OracleFail(id, "state-not-set", fmt.Sprintf("ping of a registry without referrers API: %v, %v, capability %s", ok, err, after), rep)
 	}
 }
 
@@ -1164,7 +1552,7 @@ func replay(cases []map[string]string) {
 			raw := map[string]json.RawMessage{}
 			for k, v := range c {
 				switch k {
-				case "op", "kind", "repo", "last", "at":
+				case "op", "kind", "repo", "last", "at", "state":
 					b, _ := json.Marshal(v)
 					raw[k] = b
 				default:
@@ -1193,6 +1581,43 @@ func replay(cases []map[string]string) {
 			l, _ := strconv.ParseInt(c["limit"], 10, 64)
 			s, _ := strconv.ParseInt(c["size"], 10, 64)
 			sizeCase(l, s)
+		case "ping":
+			st, _ := strconv.Atoi(c["status"])
+			pingCase(c["state"], st, c["code"], c["ctype"])
+		case "regpage":
+			var rp RegPage
+			raw := map[string]json.RawMessage{}
+			for k, v := range c {
+				switch k {
+				case "op", "kind", "path":
+					b, _ := json.Marshal(v)
+					raw[k] = b
+				default:
+					raw[k] = json.RawMessage(v)
+				}
+			}
+			js, _ := json.Marshal(raw)
+			if err := json.Unmarshal(js, &rp); err != nil {
+				panic(fmt.Sprintf("replay: %v in %s", err, js))
+			}
+			regPageReplay(&rp)
+		case "wrap":
+			var sc Scenario
+			raw := map[string]json.RawMessage{}
+			for k, v := range c {
+				switch k {
+				case "op", "kind", "repo", "last", "at", "state":
+					b, _ := json.Marshal(v)
+					raw[k] = b
+				default:
+					raw[k] = json.RawMessage(v)
+				}
+			}
+			js, _ := json.Marshal(raw)
+			if err := json.Unmarshal(js, &sc); err != nil {
+				panic(fmt.Sprintf("replay: %v in %s", err, js))
+			}
+			wrapCase(&sc)
 		case "tagschema":
 			var ts TagSchema
 			raw := map[string]json.RawMessage{}
@@ -1282,6 +1707,22 @@ func main() {
 			mx = run.Scale(40, 90)
 		}
 		listCase(genScenario(r, mx))
+	}
+	// pingReferrers
+	for _, st := range []string{"U", "S", "N"} {
+		for _, status := range []int{0, 404, 500, 401, 403} {
+			for _, code := range []string{"", "NAME_UNKNOWN", "UNSUPPORTED"} {
+				for _, ct := range append([]string{""}, ctypeVariants...) {
+					if (status == 0) == (code == "") || status == 404 {
+						pingCase(st, status, code, ct)
+					}
+				}
+			}
+		}
+	}
+	// Repository.Referrers with capability detection
+	for i := 0; i < run.Scale(1500, 40000); i++ {
+		genWrap(r)
 	}
 	// referrers tag schema
 	for i := 0; i < run.Scale(300, 6000); i++ {
